@@ -104,6 +104,10 @@ class C05(SessionProp):
         if role == CLIENT:
             if r < 0.3:
                 pre.append([C_BIND, b"cn=a", [0, b"pw"], []])
+                if rng.random() < 0.5:
+                    # refused while the bind is in progress: must leave nothing behind that a later response can hit
+                    pre.append([C_SEARCH] + msgs.g_op(rng, 3, depth=0)[1:] + [[]])
+                    pre.append([C_EXT, b"1.2.3", [], []])
             elif r < 0.8:
                 for _ in range(rng.randint(1, 3)):
                     if rng.random() < 0.5:
